@@ -3,6 +3,7 @@ import NixModel.Lemmas.C15Horner
 import NixModel.Lemmas.C15Read
 import NixModel.Lemmas.C15Hist
 import NixModel.Lemmas.C15Select
+import NixModel.Lemmas.C15Range
 
 /-!
 # C15 — calibration is applied on every read and never touches the stored values
@@ -190,6 +191,27 @@ theorem C15_commutes_whole (a : Arr) (h : WF a) (ix : Index) :
           | .error e => .error e
           | .ok vals => .ok ⟨w.dtype, fixShape shape, vals⟩ :=
   ⟨_, C15_whole a h, C15_commutes a ix⟩
+
+
+/-- **every accepted read is calibrated.** On a well-formed array an index expression that the selection
+accepts always yields a result — one value per selected position, element type by the calibration
+alone — and a refused read is refused by the selection itself, whatever the calibration. -/
+theorem C15_read_total (a : Arr) (h : WF a) (ix : Index) :
+    (∀ shape pos, select a.shape ix = .ok (shape, pos) →
+      ∃ r, readData a ix = .ok r ∧ r.dtype = outDtype a ∧ r.shape = fixShape shape ∧
+        r.vals.length = pos.length ∧ ∀ p ∈ pos, p < a.raw.length) ∧
+    (∀ e, select a.shape ix = .error e → readData a ix = .error e) := by
+  constructor
+  · intro shape pos hs
+    have hr : ∀ p ∈ pos, p < a.raw.length := by
+      rw [h.1]; exact select_in_range a.shape ix shape pos hs
+    have hr' : ∀ p ∈ pos, p < (calibAll a).length := by simpa [calibAll] using hr
+    obtain ⟨ys, hy, hyl⟩ := gather_ok_of_in_range (calibAll a) pos hr'
+    refine ⟨⟨outDtype a, fixShape shape, ys⟩, ?_, rfl, rfl, hyl, hr⟩
+    rw [C15_commutes, hs]
+    simp only [hy]
+  · intro e he
+    rw [C15_commutes, he]
 
 /-- the formula for view reads (`get_slice`, `tagged_data`, `feature_data`): a successful read of a valid
 view over a calibrated array returns the polynomial of raw elements of the parent array -/
